@@ -230,6 +230,9 @@ func NewReq(method, path string) *http.Request {
 func NewReqBody(method, path, ctype string, body []byte) *http.Request {
 	req := NewReq(method, path)
 	req.Body = io.NopCloser(bytes.NewReader(body))
+	if len(body) == 0 {
+		req.Body = http.NoBody // what a server hands over for Content-Length: 0
+	}
 	req.ContentLength = int64(len(body))
 	if ctype != "" {
 		req.Header.Set("Content-Type", ctype)
